@@ -4,6 +4,8 @@
 package fuzz
 
 import (
+	"bufio"
+	"encoding/hex"
 	"os"
 	"strconv"
 	"strings"
@@ -31,6 +33,28 @@ func FuzzAll(f *testing.F) {
 		for k := 0; k <= len(s); k += 1 + len(s)/3 {
 			f.Add(byte(i*7), byte(k), []byte(s), []byte(s[k:]))
 		}
+	}
+	// the packed corpus of inputs found interesting on the unchanged tree (tools/fuzzcorpus.py)
+	if fh, err := os.Open("corpus.txt"); err == nil {
+		sc := bufio.NewScanner(fh)
+		sc.Buffer(make([]byte, 1<<16), 1<<20)
+		for sc.Scan() {
+			p := strings.Fields(sc.Text())
+			if len(p) != 4 {
+				continue
+			}
+			sel, _ := strconv.Atoi(p[0])
+			aux, _ := strconv.Atoi(p[1])
+			un := func(s string) []byte {
+				if s == "-" {
+					return []byte{}
+				}
+				b, _ := hex.DecodeString(s)
+				return b
+			}
+			f.Add(byte(sel), byte(aux), un(p[2]), un(p[3]))
+		}
+		fh.Close()
 	}
 	sfx := impl.CfgSuffix()
 	f.Fuzz(func(t *testing.T, sel, aux byte, a, b []byte) {
